@@ -2136,6 +2136,7 @@ func copyHandleKVPair(kvp *model.KVPair) *model.KVPair {
 }
 
 func (c ipamClient) decrementHandle(ctx context.Context, handleID string, blockCIDR net.IPNet, num int, obj *model.KVPair) error {
+	callerProvidedHandle := obj != nil
 	for i := range datastoreRetries {
 		var err error
 		// Query the handle if either of these conditions is true:
@@ -2151,6 +2152,11 @@ func (c ipamClient) decrementHandle(ctx context.Context, handleID string, blockC
 
 		_, err = handle.decrementBlock(blockCIDR, num)
 		if err != nil {
+			if i == 0 && callerProvidedHandle {
+				// The caller's copy of the handle may predate an allocation made to this
+				// handle from this block; retry with a fresh read before giving up.
+				continue
+			}
 			return err
 		}
 
